@@ -16,16 +16,50 @@ const logicalPkg = "consensus/logical"
 
 func c15(c *eng.Ctx, r *eng.Report) {
 	r.Explain = "Share-counting discipline of the block-signing rounds decided on the SSA of consensus/logical: " +
-		"R15.1 in round1.Update a share is added to the block-signature recovery set only on a path where the sender's key was found, the share's data hash was compared with this block's hash, and the share verified under that key; the beacon share is added only after VerifySig(key, preBH.Random, share); " +
+		"R15.1 in round1.Update a share is added to the block-signature recovery set only on a path where the sender's key was found, the share's data hash was compared with this block's hash, the share verified under that key AND the accompanying beacon share verified against preBH.Random; the beacon share is added only after VerifySig(key, preBH.Random, share); " +
 		"R15.2 sibling agreement — both block-signing handlers that call SignInfo.VerifySign also compare SignInfo.GetDataHash() with a locally recomputed hash; " +
 		"R15.3 the member key comes from GetMemberSignPubKey(group, signer) with its ok result tested, and the generator refuses duplicates before inserting; " +
-		"R15.4 round2 verifies both recovered signatures under the group key before the block is handed to the chain. " +
+		"R15.4 round2 verifies both recovered signatures under the group key before the block is handed to the chain; " +
+		"R15.5 SignInfo.VerifySign consults no process-local state (its verdict depends only on key, hash and signature). " +
 		"Not decided: recovery correctness (C13), network-level behaviour."
 	r.Assume = []string{"groupsig.VerifySig is sound (C14)", "SignInfo.VerifySign(pk) = VerifySig(pk, dataHash, signature)"}
 	c15Round1(c, r)
 	c15Siblings(c, r)
 	c15Generator(c, r)
 	c15Round2(c, r)
+	c15Purity(c, r)
+}
+
+// c15Purity: whether a share verifies is a function of (key, data hash, signature) only.
+func c15Purity(c *eng.Ctx, r *eng.Report) {
+	const rule = "R15.5"
+	r.Min(rule, 1)
+	vs := c.Func("consensus/model", "SignInfo.VerifySign")
+	if !r.Anchor(vs != nil, rule, "model.SignInfo.VerifySign") {
+		return
+	}
+	inScope := func(fn *ssa.Function) bool {
+		p := eng.FuncPkgPath(fn)
+		return strings.HasSuffix(p, "/consensus/model") || strings.HasSuffix(p, "/consensus/groupsig") || strings.HasSuffix(p, "/consensus/groupsig/bn256")
+	}
+	cone := c.ConeOf([]*ssa.Function{vs}, inScope)
+	hits, n := 0, 0
+	for _, fn := range cone.Sorted() {
+		if !inScope(fn) || fn.Blocks == nil {
+			continue
+		}
+		n++
+		for _, h := range eng.ScanNondeterminism(fn) {
+			if h.Kind == "chan" || h.Kind == "go" || h.Kind == "select" {
+				continue
+			}
+			hits++
+			r.Fail(rule, h.Kind+":"+eng.FuncName(fn), c.Pos(h.Pos), h.Detail+" in the cone of SignInfo.VerifySign ("+cone.PathTo(fn)+"): whether a share is accepted then depends on what was verified earlier in this process, not only on (key, hash, signature)")
+		}
+	}
+	if hits == 0 {
+		r.Pass(rule, "purity", "", fmt.Sprintf("no cache, package-variable store, map range, clock or randomness in the %d functions reachable from SignInfo.VerifySign", n))
+	}
 }
 
 func c15Round1(c *eng.Ctx, r *eng.Report) {
@@ -65,6 +99,14 @@ func c15Round1(c *eng.Ctx, r *eng.Report) {
 		}
 	}
 	okKey, okHash, okVerify, directVerify := false, false, false, false
+	okBeaconFirst := false
+	for _, cd := range eng.CondsAt(gAdd) {
+		if call, isC := cd.V.(*ssa.Call); isC && eng.CallName(&call.Call) == "consensus/groupsig.VerifySig" && cd.True {
+			if strings.HasSuffix(eng.Desc(call.Call.Args[1]), ".preBH.Random") {
+				okBeaconFirst = true
+			}
+		}
+	}
 	for _, cd := range eng.CondsAt(gAdd) {
 		// ok result of the key lookup
 		if ex, isE := cd.V.(*ssa.Extract); isE && pkCall != nil && ex.Tuple == ssa.Value(pkCall) && ex.Index == 1 && cd.True {
@@ -88,10 +130,10 @@ func c15Round1(c *eng.Ctx, r *eng.Report) {
 	}
 	// the share added is the one verified, under the key looked up for the signer
 	sameShare := strings.Contains(eng.Desc(gAdd.Call.Args[2]), "GetSignature(") && strings.Contains(eng.Desc(gAdd.Call.Args[1]), "GetSignerID(")
-	ok := okKey && sameShare && (directVerify || (okVerify && okHash))
+	ok := okKey && sameShare && (directVerify || (okVerify && okHash)) && okBeaconFirst
 	r.Check(ok, rule, "round1.Update:block-share", c.Pos(gAdd.Pos()),
 		"the block share is counted only after key lookup ok, data hash == this block's hash, and the share verified under that key",
-		fmt.Sprintf("a share can be added to the block-signature recovery set without being bound to this block (key lookup ok=%v, dataHash==bh.Hash=%v, VerifySign=%v, share/signer taken from the verified SignInfo=%v): a member can file a well-signed share over another hash, the recovered group signature is invalid and the block cannot finalise", okKey, okHash, okVerify || directVerify, sameShare))
+		fmt.Sprintf("a share can be added to the block-signature recovery set without all of the sender's checks having passed (key lookup ok=%v, dataHash==bh.Hash=%v, VerifySign=%v, share/signer taken from the verified SignInfo=%v, accompanying beacon share verified first=%v): a faulty member's message is then counted in one recovery set but not the other (or over another hash), the sets diverge or recover an invalid signature, and the block cannot finalise", okKey, okHash, okVerify || directVerify, sameShare, okBeaconFirst))
 	// --- beacon share
 	okR := false
 	for _, cd := range eng.CondsAt(rAdd) {
